@@ -8,8 +8,13 @@ from .core.effects import Effects, provenance
 from .core.readflags import checkpoint_edges, stateful_edges, guarded
 from .core.absint import Interp, Undecided, Sym
 from .core.taint import Taint
+from .core.symexpr import expr, show, strip_refs
 
 RULES = {
+    "C12.5": "a block is accounted to the file it lives in: in the allocator, the path handed to BlockStateTracker::register_block (which file a block's lock / unlock / consumed "
+             "credit goes to) and to FileStateTracker::add_block_to_file_state (which file's block total grows) is the file_path the Block that is handed out carries - no store "
+             "to the allocator's file_path (a rollover to a new file) lies between the registration and the construction of that Block, in either order. A block registered "
+             "against the previous file lets that file reach `consumed >= total` while one of its own blocks is unread: the reclaimer deletes it",
     "C12.1": "who may delete (WMC): fs::remove_file / remove_dir_all are called only by the background worker, on paths drained from the set fed by the deletion channel; "
              "the static DELETION_TX is referenced only by flush_check (send) and start_background_workers (set)",
     "C12.2": "readiness predicate (BOOL): over the sub-CFG of flush_check the deletion request is sent only under fully_allocated AND locked == 0 AND total > 0 AND checkpointed >= total, "
@@ -523,6 +528,48 @@ def check_idempotence(ctx, facts, collect=False):
     return results
 
 
+def check_block_file_agreement(ctx, facts, rid="C12.5"):
+    n = 0
+    for fn in ("allocator::BlockAllocator::get_next_available_block", "allocator::BlockAllocator::alloc_block"):
+        b = facts.body(fn)
+        ctx.saw_body(b)
+        regs = b.calls(re.compile(r"BlockStateTracker::register_block$|FileStateTracker::add_block_to_file_state$"))
+        aggs = [site for site, st in b.assigns() if st["rv"]["k"] == "agg" and st["rv"].get("akind") == "adt" and str(st["rv"].get("name", "")).endswith("block::Block")]
+        # ... or handed out as a copy of the allocator's own record (`data.clone()`)
+        aggs += [c for c in b.calls(re.compile(r"Clone>?::clone$")) if c.node["args"] and b.local_ty(c.node["dest"]["l"]).endswith("block::Block")]
+        if not regs or not aggs:
+            ctx.anchor_missing(rid, "register_block / Block construction in " + fn)
+            continue
+        stores = []
+        for site, st in b.assigns():
+            p_ = st["place"]
+            if any(e == "*" for e in p_["p"]) and p_["p"] and isinstance(p_["p"][-1], dict) and p_["p"][-1].get("n") == "file_path" and str(p_["p"][-1].get("o", "")).endswith("block::Block"):
+                stores.append(site)
+        for c in b.calls(re.compile(r"^std::mem::(replace|swap|take)$")):
+            if c.node["args"] and ".file_path" in show(strip_refs(expr(b, c.node["args"][0])), 8):
+                stores.append(c)
+        def ix(x):
+            return 10 ** 9 if x.idx == "term" else x.idx
+
+        def leads(x, y):
+            return (x.bb == y.bb and ix(x) < ix(y)) or (y.bb in b.reachable_after(x.bb) and not (x.bb == y.bb))
+        for r in regs:
+            n += 1
+            bad = None
+            for a in aggs:
+                for s_ in stores:
+                    if (leads(r, s_) and leads(s_, a)) or (leads(a, s_) and leads(s_, r)):
+                        bad = bad or (s_, a)
+            if bad:
+                ctx.violate(rid, fn, "block-registered-with-another-file", b.relfile, r.line,
+                            "%s is given the allocator's file_path at line %s, but the file_path is replaced (line %s, rollover to a new file) before the Block that is handed out is "
+                            "built (line %s): the block is accounted to the previous file, which can then be reclaimed while this block - or a block of its own - is unread"
+                            % (callee_name(r.node).split("::")[-1], r.line, bad[0].line, bad[1].line))
+            else:
+                ctx.ok(rid, fn, "%s uses the file_path the handed-out Block carries" % callee_name(r.node).split("::")[-1], b.relfile, r.line)
+    ctx.floor(rid, "block registrations in the allocator", n, 2)
+
+
 def run(ctx):
     for k, v in RULES.items():
         ctx.rule(k, v)
@@ -532,6 +579,7 @@ def run(ctx):
     check_wmc(ctx, facts)
     check_marks(ctx, facts)
     check_idempotence(ctx, facts)
+    check_block_file_agreement(ctx, facts)
     ctx.assume("'durably consumed' under AtLeastOnce and cross-instance block-id collisions (C13) are not decided here")
     ctx.assume("the readiness predicate is evaluated over (locked, checkpointed, total) in {0..3}^3 x bool: comparisons against constants <= 1 and between the counters are decided exactly on that domain")
     return {
